@@ -5,9 +5,14 @@ TIER="${1:-quick}"
 cd /repo && [ -z "$(git status --porcelain)" ] || { echo "/repo not clean"; exit 3; }
 for d in /verif/seeded/*/; do
   n=$(basename $d)
-  prop=$(python3 -c "import json;print(json.load(open('$d/meta.json'))['property'])")
-  ids="$prop"
-  case $n in C02-m2-*|C03-r2m2-*) ids="C16";; esac
+  # the owning property's check first, then every check named in detected_by
+  ids=$(python3 -c "
+import json,re
+m=json.load(open('$d/meta.json'))
+ids=[m['property']]+[x for x in re.findall(r'C\d\d', m['detected_by']) if x!=m['property']]
+seen=[]
+[seen.append(i) for i in ids if i not in seen]
+print(' '.join(seen))")
   cd /repo; (git apply -3 $d/patch.diff 2>/dev/null || git apply $d/patch.diff) || { echo "$n: PATCH-DOES-NOT-APPLY"; git checkout -q -- .; continue; }
   git reset -q
   res=MISSED
